@@ -93,10 +93,10 @@ def main():
             lines.append(f"| {k} | {', '.join(f'{p}:{rc}' for p, rc in res.items())} | {note} |")
         lines += ["", f"{caught} of {len(r)} faults are reported; the {len(r) - caught} quiet ones are equivalent changes with respect to the property (see notes).", ""]
     lines += ["### 10.3 False-alarm runs on the unchanged (repaired) tree", "",
-              "* every quick check was run at VERIF_SEED 1 to 7 in fresh processes with PYTHONHASHSEED=0 (seeds 2-5 before the third seeded round, seeds 1, 6 and 7 on the final code): "
+              "* every quick check was run at VERIF_SEED 1 to 8 in fresh processes with PYTHONHASHSEED=0 (seeds 2-5 before the third seeded round, seeds 1, 6, 7 and 8 on the final code): "
               "no VIOLATION, no harness error, no budget hit;",
               "* `vp check` (fresh copy of the sandbox, offline, setup_cmd + every quick command): request 1 flagged one alarm - C20 could not parse a `-inf` cell of the CSV report "
-              "(machinery error, corrected, section 9); requests 2 and 3 (after the second round, and on the final code): nothing needed attention;",
+              "(machinery error, corrected, section 9); requests 2, 3 and 4 (after the second round, after the third, and on the final committed state): nothing needed attention;",
               "* thorough-tier trial runs of all 20 checks (outputs under `thorough_runs/`): one false alarm (C12 tolerance, corrected, section 9), no other alarm; "
               "C14's thorough size was reduced after a first run exceeded its time limit (state-machine sub-checks now obey a budget like the others) and C05's after its "
               "budget cut the tail of a run; C12 and C14 were re-run afterwards (73600 cases / 2617 histories, quiet).", ""]
